@@ -330,7 +330,9 @@ Definition guard_gs (c : gcase) : bool :=
   Nat.eqb (length (structs_of_order c)) (length (gc_order c)) &&
   (let sv := spec_view c in
    forallb (fun sd => c03_guard (gc_pkg c) (gc_flags c) (gc_fuel c) sd &&
-                      accessor_names_unique (gc_pkg c) sv (gc_fuel c) sd) (structs_of_order c)).
+                      accessor_names_unique (gc_pkg c) sv (gc_fuel c) sd &&
+                      accessors_visible (gc_pkg c) sv (gc_fuel c) sd &&
+                      not_self_embedded (gc_pkg c) (gc_fuel c) sd) (structs_of_order c)).
 
 (* verdicts: 0 agree and the property holds; 1 model and implementation differ; 2 inside the guard and the
    property fails on the observation; 3 outside the guard (input class of an open finding) and the literal
